@@ -597,7 +597,7 @@ func explore(h Harness, tier string, nworkers int) *harnessReport {
 			inflight++
 		}
 		// grow the pool when there is a backlog
-		for len(queue) > 0 && len(idle) == 0 && started+starting < nworkers && starting < 8 {
+		for len(queue) > 0 && len(idle) == 0 && started+starting < nworkers && starting < 8 && !brokenHarness {
 			go spawn()
 			starting++
 		}
@@ -620,6 +620,12 @@ func explore(h Harness, tier string, nworkers int) *harnessReport {
 				starting--
 				rep.Inconclusive["worker-start-failed"]++
 				rep.InconclMsgs = appendCapped(rep.InconclMsgs, r.err.Error())
+				if rep.Inconclusive["worker-start-failed"] >= 3 && started == 0 {
+					// the harness does not load (compile error, missing file): the check cannot run
+					fmt.Printf("ERROR harness=%s cannot start: %v\n", h.Name, r.err)
+					brokenHarness = true
+					queue = nil
+				}
 				continue
 			}
 			// worker crashed on a path: record as inconclusive, drop the worker
@@ -774,6 +780,9 @@ type replayFile struct {
 	Inputs   []interp.InputRec `json:"inputs"`
 	HookPlan map[string][]int  `json:"hook_plan,omitempty"`
 }
+
+// brokenHarness: a harness could not be loaded at all; the check exits 2 (it decided nothing)
+var brokenHarness bool
 
 var pkgClause = regexp.MustCompile(`(?m)^package\s+(\w+)`)
 
@@ -998,6 +1007,9 @@ func cmdCheck(args []string) {
 		writeEvidence(*prop, *tier, seed, reports, violationsTotal, time.Since(t0).Seconds())
 	}
 	fmt.Printf("property %s tier %s: %d harnesses, %d violations, %.1fs\n", *prop, *tier, len(hs), violationsTotal, time.Since(t0).Seconds())
+	if brokenHarness && exit == 0 {
+		exit = 2
+	}
 	os.Exit(exit)
 }
 
